@@ -145,7 +145,7 @@ Proof.
   match goal with |- context [if ?c then _ else _] => destruct c end; eexists; reflexivity.
 Qed.
 
-Lemma mp_comb_ok b : reduced b -> val_comb_ok true b (mp_comb b).
+Lemma mp_comb_ok b : nz b -> val_comb_ok true b (mp_comb b).
 Proof.
   intros R p cl ch e Hp Hlt. pose proof (kids_not_both_zero b p R Hp Hlt) as K. unfold mp_comb. cbv zeta.
   destruct (N.eqb_spec (nlow (get b p)) 0) as [El|El], (N.eqb_spec (nhigh (get b p)) 0) as [Eh|Eh]; cbn [andb];
@@ -157,7 +157,7 @@ Proof.
     + apply N.ltb_lt in Ec. repeat split; try assumption; lia.
     + apply N.ltb_ge in Ec. repeat split; try assumption; lia.
 Qed.
-Lemma mn_comb_ok b : reduced b -> val_comb_ok false b (mn_comb b).
+Lemma mn_comb_ok b : nz b -> val_comb_ok false b (mn_comb b).
 Proof.
   intros R p cl ch e Hp Hlt. pose proof (kids_not_both_zero b p R Hp Hlt) as K. unfold mn_comb. cbv zeta.
   destruct (N.eqb_spec (nlow (get b p)) 0) as [El|El], (N.eqb_spec (nhigh (get b p)) 0) as [Eh|Eh]; cbn [andb];
@@ -172,7 +172,7 @@ Qed.
 
 Section ValDP.
   Variables (pol : bool) (comb : comb_t) (b : bdd) (c : cache).
-  Hypotheses (W : wf b) (R : reduced b) (VO : val_comb_ok pol b comb) (U : cache_upto comb b c (size b)).
+  Hypotheses (W : wf b) (R : nz b) (VO : val_comb_ok pol b comb) (U : cache_upto comb b c (size b)).
 
   (* score of taking branch cc at node p, given the cached entries of the children *)
   Definition score (p : N) (cc : bool) (eq : N * bool) : N :=
@@ -304,7 +304,7 @@ Section ValDP.
   Qed.
 End ValDP.
 
-Lemma dp_val_spec pol comb b record : Canonical b -> is_false b = false -> comb_total comb -> val_comb_ok pol b comb ->
+Lemma dp_val_spec pol comb b record : Benign b -> is_false b = false -> comb_total comb -> val_comb_ok pol b comb ->
   rec_default pol record ->
   exists l,
     bind (dp_cache b (step_of comb))
@@ -353,7 +353,7 @@ Theorem most_negative_valuation_none b : is_false b = true -> most_negative_valu
 Proof. intros H. unfold most_negative_valuation. now rewrite H. Qed.
 
 (* satisfying, maximal number of true variables, least such *)
-Theorem most_positive_spec b : Canonical b -> is_false b = false ->
+Theorem most_positive_spec_benign b : Benign b -> is_false b = false ->
   exists l, most_positive_valuation b = Ok (Some l) /\ sat_list b l /\
     (forall l', sat_list b l' -> count_pol true l' <= count_pol true l) /\
     (forall l', sat_list b l' -> count_pol true l' = count_pol true l -> lex_le l l').
@@ -361,10 +361,17 @@ Proof.
   intros C Hf. unfold most_positive_valuation. rewrite Hf, mp_step_eq.
   apply (dp_val_spec true (mp_comb b) b _ C Hf (mp_total b)); [apply mp_comb_ok; apply C|apply rec_default_clear].
 Qed.
+Print Assumptions most_positive_spec_benign.
+
+Theorem most_positive_spec b : Canonical b -> is_false b = false ->
+  exists l, most_positive_valuation b = Ok (Some l) /\ sat_list b l /\
+    (forall l', sat_list b l' -> count_pol true l' <= count_pol true l) /\
+    (forall l', sat_list b l' -> count_pol true l' = count_pol true l -> lex_le l l').
+Proof. intros C. apply most_positive_spec_benign. apply canonical_benign. exact C. Qed.
 Print Assumptions most_positive_spec.
 
 (* satisfying, maximal number of false variables, least such *)
-Theorem most_negative_spec b : Canonical b -> is_false b = false ->
+Theorem most_negative_spec_benign b : Benign b -> is_false b = false ->
   exists l, most_negative_valuation b = Ok (Some l) /\ sat_list b l /\
     (forall l', sat_list b l' -> count_pol false l' <= count_pol false l) /\
     (forall l', sat_list b l' -> count_pol false l' = count_pol false l -> lex_le l l').
@@ -372,4 +379,11 @@ Proof.
   intros C Hf. unfold most_negative_valuation. rewrite Hf, mn_step_eq.
   apply (dp_val_spec false (mn_comb b) b _ C Hf (mn_total b)); [apply mn_comb_ok; apply C|apply rec_default_set].
 Qed.
+Print Assumptions most_negative_spec_benign.
+
+Theorem most_negative_spec b : Canonical b -> is_false b = false ->
+  exists l, most_negative_valuation b = Ok (Some l) /\ sat_list b l /\
+    (forall l', sat_list b l' -> count_pol false l' <= count_pol false l) /\
+    (forall l', sat_list b l' -> count_pol false l' = count_pol false l -> lex_le l l').
+Proof. intros C. apply most_negative_spec_benign. apply canonical_benign. exact C. Qed.
 Print Assumptions most_negative_spec.
